@@ -9,6 +9,8 @@
 //@ harness e_sorted kind=enum props=C03 bound=<<directories whose entries are 2..=3 names over {a, B, a-b, a.b, e-acute, the non-UTF-8 byte 0x80, 0xff} with one subdirectory level; -sorted with and without -depth>> label=<<with -sorted the visit sequence is the pre-order (post-order under -depth) walk with siblings in byte-wise name order>>
 //@ harness e_cmdline kind=enum props=C11 thorough_bound=<<every expression of 0..=4 tokens over 27 tokens on a real two-entry tree>> bound=<<every expression of 0..=3 tokens over 27 tokens (primaries with and without operands, operators, parentheses, near-miss operands) on a real two-entry tree>> label=<<find returns an ordinary exit status for every argument vector (no panic), and when the command line is rejected nothing is printed>>
 //@ harness e_printf_time_spec kind=enum props=C11,C16 bound=<<-printf with %T, %A, %C followed by each printable ASCII character>> label=<<a time directive is either rejected before anything is printed, or renders for every entry: none is accepted and then fails while printing>>
+//@ harness e_newer_t_operand kind=enum props=C11 bound=<<-newermt / -newerat with a literal time built from {no month-day, jan 01, Dec 31, feb 30, xyz 01, a day in Arabic-Indic digits, jan 1, j\u00e9n 01} x {no year, 2025, 1999, a year in Arabic-Indic digits, 0000, 9999, 20a5, 12345, a year in full-width digits} x {no time, 00:00:01, 23:59:59, 24:00:00, 12:60:00, an hour in Arabic-Indic digits, 1:2:3} (1008 operands) on a tree with one entry from 1971 and one from 2170>> label=<<find never panics on a -newerXt operand; a time that does not exist is rejected before anything is printed with a non-zero status; a well-formed time between 1999 and the end of this year is accepted and selects the 2170 entry only; every other operand is either rejected cleanly or taken as one instant>>
+//@ harness e_follow_flags kind=enum props=C13,C02 bound=<<every sequence of 0..=3 of the leading options -P, -H, -L (also interleaved with -O1 and -D x) x an expression with or without -follow>> label=<<the follow mode of a run is that of the last of -P/-H/-L on the command line (none: -P), and -follow in the expression makes it 'always' whatever came before>>
 #[cfg(verif_replay)]
 mod verif_enum_find {
     use super::*;
@@ -267,4 +269,69 @@ mod verif_enum_find {
         assert!(rendered || rejected, "a time directive must be rejected up front or render for every entry");
     }
     #[test] fn e_printf_time_spec() { kani::explore(time_spec_body) }
+
+    fn newer_t_body() {
+        // the literal-time operand of -newerXt: "<mon> <dd>, <yyyy> <hh:mm:ss>", every part optional; valid parts, dates and times that do not
+        // exist, digits outside ASCII (which \d and \w accept), wrong lengths
+        let md = ["", "jan 01", "Dec 31", "feb 30", "xyz 01", "jan \u{0660}\u{0661}", "jan 1", "j\u{00e9}n 01"][pick(8)];
+        let yr = ["", ", 2025", ", 1999", ", \u{0662}\u{0660}\u{0662}\u{0665}", ", 0000", ", 9999", ", 20a5", ", 12345", ", \u{ff12}\u{ff10}\u{ff12}\u{ff15}"][pick(9)];
+        let tm = ["", " 00:00:01", " 23:59:59", " 24:00:00", " 12:60:00", " \u{0661}\u{0662}:00:00", " 1:2:3"][pick(7)];
+        let x = ["m", "a"][pick(2)];
+        let operand = format!("{md}{yr}{tm}");
+        let d = scratch("newert");
+        // one entry from 1971, one from 2170 (times before 1970 are left out: NewerTimeMatcher takes their distance from the epoch as positive, which no property speaks about)
+        let old = d.join("old");
+        let new = d.join("new");
+        let f = std::fs::File::create(&old).unwrap();
+        let t_old = std::time::UNIX_EPOCH + std::time::Duration::from_secs(366 * 86400);
+        f.set_times(std::fs::FileTimes::new().set_accessed(t_old).set_modified(t_old)).unwrap();
+        let g = std::fs::File::create(&new).unwrap();
+        let t_new = std::time::UNIX_EPOCH + std::time::Duration::from_secs(200 * 366 * 86400);
+        g.set_times(std::fs::FileTimes::new().set_accessed(t_new).set_modified(t_new)).unwrap();
+        let opt = format!("-newer{x}t");
+        let ds = d.to_str().unwrap().to_string();
+        let (rc, out) = run(&["find", &ds, "-type", "f", &opt, &operand]);   // a panic here fails the harness with this operand as the witness
+        let _ = std::fs::remove_dir_all(&d);
+        let text = String::from_utf8_lossy(&out).replace(&ds, "D");
+        let rejected = rc != 0 && out.is_empty();
+        let valid_md = matches!(md, "" | "jan 01" | "Dec 31");
+        let valid_yr = matches!(yr, "" | ", 2025" | ", 1999");
+        let valid_tm = matches!(tm, "" | " 00:00:01" | " 23:59:59");
+        let impossible = matches!(md, "feb 30" | "xyz 01") || matches!(tm, " 24:00:00" | " 12:60:00") || matches!(yr, ", 20a5");
+        let shown = format!("  input find D -type f {opt} {operand:?}: exit {rc}, output {text:?}");
+        if valid_md && valid_yr && valid_tm && !operand.is_empty() {
+            // a time of 1999..=this year: the 1971 entry is not newer, the 2170 one is
+            if !(rc == 0 && text == "D/new\n") { eprintln!("{shown}"); }
+            assert!(rc == 0 && text == "D/new\n", "a well-formed literal time was not accepted or does not separate an older from a newer entry");
+        } else if impossible {
+            if !rejected { eprintln!("{shown}"); }
+            assert!(rejected, "a time that does not exist must be rejected before anything is printed");
+        } else {
+            // digits outside ASCII, short or long fields: rejected up front, or taken as some time - never a panic, and never output with a failure status
+            let taken = rc == 0 && (text.is_empty() || text == "D/new\n" || text == "D/new\nD/old\n" || text == "D/old\nD/new\n");
+            if !(rejected || taken) { eprintln!("{shown}"); }
+            assert!(rejected || taken, "an operand is either rejected before anything is printed or taken as one instant");
+        }
+    }
+    #[test] fn e_newer_t_operand() { kani::explore(newer_t_body) }
+
+    fn follow_flags_body() {
+        let n = pick(4);
+        let mut args: Vec<&str> = Vec::new();
+        let mut want = Follow::Never;
+        for _ in 0..n {
+            match pick(4) {
+                0 => { args.push("-P"); want = Follow::Never; }
+                1 => { args.push("-H"); want = Follow::Roots; }
+                2 => { args.push("-L"); want = Follow::Always; }
+                _ => { args.push("-O1"); }
+            }
+        }
+        args.push(".");
+        match pick(3) { 0 => {}, 1 => { args.push("-follow"); want = Follow::Always; }, _ => { args.push("-true"); args.push("-follow"); args.push("-print"); want = Follow::Always; } }
+        let got = parse_args(&args).map(|p| p.config.follow);
+        if got.as_ref().ok() != Some(&want) { eprintln!("  input find {:?}: follow mode {:?}, expected {:?}", args, got.as_ref().ok(), want); }
+        assert!(got.ok() == Some(want), "the follow mode is not that of the last of -P/-H/-L (or 'always' with -follow)");
+    }
+    #[test] fn e_follow_flags() { kani::explore(follow_flags_body) }
 }
